@@ -1,7 +1,8 @@
-\* the named deviation: the guard is evaluated before RLock -> PropNoStale must be violated
+\* lib/stalewriter.py: layer 1 (both deviations FALSE) must satisfy PropNoStale; each named deviation must violate it
 SPECIFICATION Spec
 CONSTANTS
   CheckOutsideLock = TRUE
-  WithHolder = {TRUE, FALSE}
+  InitUnderReadLock = FALSE
+  Modes = {"plain", "holder", "stall"}
 INVARIANTS TypeOK Settled PropNoStale
 CHECK_DEADLOCK FALSE
